@@ -483,6 +483,12 @@ void dataset_t::check(tensor_size_t feature) const
 
 void dataset_t::check(indices_cmap_t samples) const
 {
+    // NB: an empty list of samples is a valid (empty) selection and has no minimum or maximum!
+    if (samples.size() == 0)
+    {
+        return;
+    }
+
     critical(samples.min() < 0 || samples.max() >= m_datasource.samples(),
              "dataset: invalid sample range, expecting in [0, ", m_datasource.samples(), "), got ", "[", samples.min(),
              ", ", samples.max(), ")!");
